@@ -108,7 +108,8 @@ def pairOp (hs : Hasher) (impl : String) : P Verdict := do
         if a.ver == b.ver && a.src == b.src then "src" else "other"
     | _ => "na"
   let ports := hs != .tcp
-  let kf := if ok then [] else ((kfNames fr p₁ ports) ++ (kfNames fr p₂ ports)).eraseDups
+  -- no class excuses an index out of range
+  let kf := if ok || !valid then [] else ((kfNames fr p₁ ports) ++ (kfNames fr p₂ ports)).eraseDups
   let hn := match hs with | .tcp => "t" | .http => "h" | .tls => "l"
   let tag := s!"pair-{hn}:{seenTag p₁}:A-{rel idA}:B-{rel idB}:" ++ hashTag p₁
   pure { modelEq := impl == model, specOk := some ok, kf := kf, tag := tag, model := model,
